@@ -509,6 +509,104 @@ class CoopLock:
         return False
 
 
+class TimedCoopLock(CoopLock):
+    """threading.Lock as the library may use it: acquire(timeout=t) gives up after a few turns of waiting and
+    returns False; release() of a lock that is not held raises RuntimeError; release() by a thread that does
+    not own the lock is allowed (threading.Lock does not check the owner)"""
+
+    def __init__(self, ctx, patience):
+        super().__init__(ctx)
+        self.patience = patience
+
+    def acquire(self, blocking=True, timeout=-1):
+        waited = 0
+        while self.held:
+            if not blocking or (timeout is not None and timeout >= 0 and waited >= self.patience):
+                return False
+            self.ctx.point("lock")
+            waited += 1
+        self.held = True
+        return True
+
+    def release(self):
+        if not self.held:
+            raise RuntimeError("release unlocked lock")
+        self.held = False
+
+    def locked(self):
+        return self.held
+
+
+def two_senders(res, rng, tier, schedule=None):
+    """SyncTransport.send from two threads at once — the pump and a user thread that sends directly — on a
+    connection whose write takes its time.  Outside the interleaving model (which has one sender, the lock
+    being what makes that so): judged on the real code only.  Neither send may raise, no command may be
+    written twice, and a command is written whole."""
+    from mysensors.transport import BaseMySensorsProtocol, SyncTransport
+    fails = []
+    msgs = ["1;1;1;0;2;1\n", "2;1;1;0;2;0\n"]
+    for trial in range(1 if schedule is not None else 80 if tier == "quick" else 2000):
+        ctx = Ctx(timeout=2.0)
+        writes = []
+
+        class SlowConn:
+            closed = False
+
+            def write(self, data):
+                ctx.point("w-begin")
+                if self.closed:
+                    raise OSError(9, "Bad file descriptor")
+                ctx.point("w-mid")
+                ctx.point("w-end")
+                writes.append(data.decode())
+
+            def close(self):
+                self.closed = True
+        gwns = types.SimpleNamespace(on_conn_lost=lambda *_a: None, on_conn_made=lambda *_a: None)
+        tr = SyncTransport(gwns, lambda _t: None, timeout=1.0)
+        tr.connect = lambda: None
+        tr._lock = TimedCoopLock(ctx, patience=(trial % 3) + 1)
+        proto = BaseMySensorsProtocol(gwns, lambda: None)
+        proto.transport = SlowConn()
+        tr.protocol = proto
+        try:
+            threads = [ctx.coop.spawn(lambda m=m: tr.send(m), name) for m, name in zip(msgs, ("pump", "user"))]
+            for th in threads:
+                ctx.coop.prime(th)
+            sched = []
+            for step in range(60):
+                live = [i for i, th in enumerate(threads) if not th.done]
+                if not live:
+                    break
+                i = schedule[step] if schedule is not None and step < len(schedule) else rng.choice(live)
+                if i not in live:
+                    i = live[0]
+                sched.append(i)
+                ctx.coop.resume(threads[i])
+            statuses = [th.status for th in threads]
+        except HarnessHang:
+            res.count("two-senders:infeasible")
+            continue
+        finally:
+            ctx.coop.shutdown()
+        res.evaluations += 1
+        res.count("two-senders")
+        res.distinct.add(digest(["2s", sched]))
+        bad = None
+        raised = [(n, st) for n, st in zip(("pump", "user"), statuses) if st not in ("ret", "run", "done")]
+        if raised:
+            bad = f"send on the {raised[0][0]} thread ended with {raised[0][1]}"
+        elif any(writes.count(m) > 1 for m in msgs) or any(w not in msgs for w in writes):
+            bad = f"what was written: {writes}"
+        if bad:
+            fails.append({"key": {"kind": "two-senders"}, "replay": {"op": "two-senders", "schedule": sched, "trial": trial},
+                          "what": f"two threads in SyncTransport.send on a slow connection: {bad} (schedule {sched}, "
+                                  f"a timed acquire gives up after {(trial % 3) + 1} turns)"})
+            if len(fails) > 3:
+                break
+    return fails
+
+
 def tcp_write_vs_disconnect(res, rng, tier):
     """Transport.send over the real TCPTransport while the user disconnects: the operating system takes the
     command in two pieces (a scheduling point in between); the peer must see the whole command or nothing."""
@@ -1027,6 +1125,8 @@ def run(tier, seed, driver):
 
     for bad in tcp_write_vs_disconnect(res, rng, tier):
         res.oracle_failures.append(bad)
+    for bad in two_senders(res, rng, tier):
+        res.oracle_failures.append(bad)
 
     # (c'') the real connection objects honour the contract the fakes stand for: write() on a usable
     # connection hands over the whole command, on a dead one it raises an OSError (which send() absorbs)
@@ -1185,6 +1285,11 @@ def replay(payload):
         res = Result()
         bad = tcp_write_vs_disconnect(res, random.Random(16), "quick")
         print(res.histogram)
+        print("oracle:", bad[:1])
+        return 1 if bad else 0
+    if r.get("op") == "two-senders":
+        res = Result()
+        bad = two_senders(res, random.Random(16), "quick")
         print("oracle:", bad[:1])
         return 1 if bad else 0
     if r.get("op") == "real-conn":
